@@ -138,6 +138,9 @@ func cmdVerify(args []string) int {
 			fmt.Println("  abstraction:", s)
 		}
 		for _, o := range res.Obls {
+			if o.Status == "other-property" {
+				continue
+			}
 			ok := o.Status == "unsat"
 			if o.ExpectSat {
 				ok = o.Status != "unsat"
@@ -498,14 +501,33 @@ func (eng *Engine) checkProperty(prop string, timeoutMs int, all_ bool, verbose 
 			rep.EngineErrors = append(rep.EngineErrors, "lemma: "+s)
 		}
 	}
+	eng.noRetry = map[string]bool{}
+	for _, kf := range loadKnownFindings() {
+		if kf.Kind == "known" && kf.Property == prop {
+			eng.noRetry[kf.Obligation] = true
+		}
+	}
 	tSolve := time.Now()
 	toSolve := rep.All
+	{
+		// clauses that belong to other properties only are not this check's business
+		var keep []*Obligation
+		for _, o := range toSolve {
+			if o.Status == "" && len(o.Tags) > 0 && !hasTag(o.Tags, prop) {
+				o.Status, o.Solver = "other-property", "-"
+				continue
+			}
+			keep = append(keep, o)
+		}
+		toSolve = keep
+	}
 	if !eng.updatingLedger {
 		// obligations whose failure could not be reported (safety obligations
 		// outside the ledger) are not sent to the solvers
 		ledNow := loadLedger(prop)
+		all_ := toSolve
 		toSolve = nil
-		for _, o := range rep.All {
+		for _, o := range all_ {
 			if o.Status == "" && !o.ExpectSat && !claimed(o, ledNow) {
 				o.Status, o.Solver = "not-claimed", "-"
 				continue
@@ -535,6 +557,9 @@ func (eng *Engine) checkProperty(prop string, timeoutMs int, all_ bool, verbose 
 	known := loadKnownFindings()
 	led := loadLedger(prop)
 	for _, o := range rep.All {
+		if o.Status == "other-property" {
+			continue
+		}
 		ok := o.Status == "unsat"
 		if o.ExpectSat {
 			ok = o.Status != "unsat"
@@ -552,6 +577,9 @@ func (eng *Engine) checkProperty(prop string, timeoutMs int, all_ bool, verbose 
 		}
 	}
 	for _, o := range rep.All {
+		if o.Status == "other-property" {
+			continue
+		}
 		ok := o.Status == "unsat"
 		if o.ExpectSat {
 			ok = o.Status != "unsat"
@@ -717,14 +745,18 @@ func (rep *checkReport) finish(prop string, writeEvidence bool) int {
 	if writeEvidence {
 		rep.writeEvidence(prop, len(order))
 	}
-	n := 0
+	n, scope := 0, 0
 	for _, o := range rep.All {
+		if o.Status == "other-property" {
+			continue
+		}
+		scope++
 		if (!o.ExpectSat && o.Status == "unsat") || (o.ExpectSat && o.Status != "unsat") {
 			n++
 		}
 	}
 	fmt.Printf("%s: %d obligations, %d discharged, %d violated groups, %d known findings, %d not claimed, %.1fs\n",
-		prop, len(rep.All), n, len(order), len(printed), len(rep.NotClaimed), rep.WallS)
+		prop, scope, n, len(order), len(printed), len(rep.NotClaimed), rep.WallS)
 	return code
 }
 
@@ -754,7 +786,16 @@ func (rep *checkReport) writeEvidence(prop string, violations int) {
 	for _, o := range rep.OtherProp {
 		other[o] = true
 	}
+	skippedOther, skippedUnclaimed := 0, 0
 	for _, o := range rep.All {
+		if o.Status == "other-property" {
+			skippedOther++
+			continue
+		}
+		if o.Status == "not-claimed" {
+			skippedUnclaimed++
+			continue
+		}
 		if notClaimed[o] || knownSet[o] || other[o] {
 			continue
 		}
@@ -846,8 +887,10 @@ func (rep *checkReport) writeEvidence(prop string, violations int) {
 			"not_claimed":             nc,
 			"known_findings_printed":  kf,
 			"other_property_failures": op,
-			"engine_errors":           rep.EngineErrors,
-			"samples":                 samples,
+			"obligations_tagged_for_other_properties_only_not_solved": skippedOther,
+			"safety_obligations_outside_the_ledger_not_solved":        skippedUnclaimed,
+			"engine_errors": rep.EngineErrors,
+			"samples":       samples,
 		},
 		Assumptions: append(append([]string{}, assumed...), abstr...),
 	}
